@@ -29,7 +29,7 @@ func TestVerif(t *testing.T) {
 		Rule: "(A) for Repository.Tags, Registry.Repositories and Repository.Referrers (API): every item list of length 0..5 x every value of last (none, each item, a non-member) x every split of the remaining items into <= 4 pages (empty pages included) " +
 			"x client page size {0,1,2,7} x Link form {absolute, absolute path, absolute path with extra parameters and spaces, an opaque cursor instead of last, query-only reference, relative-path reference ./<last segment>} x (when a page is empty) that page written with or without its list member x callback failing at page {never,0,1,2} x (referrers) artifact-type filter {none, applied by the server via header, via annotation, not applied}; " +
 			"the scripted registry double serves exactly those pages and checks every follow-up request against the Link it issued. (B) response documents of size limit-1, limit, limit+1 for small MaxMetadataBytes, padded by whitespace inside the document, after it, or by a long item; a counting body measures the bytes consumed. " +
-			"(C) OCI layout Tags (read-write and read-only store) for every subset of 4 tag names x every last. (D) Referrers through the tag schema with every filter. " +
+			"(C) OCI layout Tags (read-write and read-only store) for every subset of 4 tag names x every last. (D) Referrers through the tag schema with every filter; and with a chunked GET answer that goes on for 100 KiB after the announced index (no more than MaxMetadataBytes read). " +
 			"Oracle: concatenated callback arguments = the model list (for referrers also artifactType and annotations of every descriptor, which differ from entry to entry); a slice handed to the callback still holds the same items after the listing; stops at the first missing Link or callback error (returned); bytes consumed <= limit; oversize document => error. non-trivial = distinct case with >= 2 pages or a non-empty last",
 		Assumptions: []string{"a 'document' is the JSON value; trailing whitespace after a value that fits the limit is not part of it"},
 		Jobs:        jobs,
@@ -618,6 +618,50 @@ func ociTags(c *driver.Ctx) {
 // ---- (D) Referrers through the tag schema
 
 func tagSchema(c *driver.Ctx) {
+	// the referrers index fetched by tag from a registry that answers GET chunked (its size is then
+	// known from HEAD only) and whose body goes on after the announced document: the listing fails and
+	// no more than MaxMetadataBytes of that answer is read
+	for n := 1; n <= 3; n++ {
+		for at := 0; at <= 3; at++ {
+			g := NewRegistry("reg.example", Profile{NoGetLength: true})
+			repo, _ := remote.NewRepository("reg.example/ns/app")
+			repo.Client = g
+			subject := ocispec.Descriptor{MediaType: ocispec.MediaTypeImageManifest, Digest: digest.FromString("subject"), Size: 7}
+			idx := ocispec.Index{MediaType: ocispec.MediaTypeImageIndex, Manifests: []ocispec.Descriptor{}}
+			idx.SchemaVersion = 2
+			for _, it := range items(n) {
+				idx.Manifests = append(idx.Manifests, refDesc(it))
+			}
+			b, _ := json.Marshal(idx)
+			dg := digest.FromBytes(b)
+			g.Repo("ns/app").PutManifest(dg, b, ocispec.MediaTypeImageIndex)
+			g.Repo("ns/app").Tags["sha256-"+subject.Digest.Encoded()] = dg
+			limit := int64(len(b)) + 64
+			repo.MaxMetadataBytes = limit
+			g.Corrupt = Corruption{At: at, Kind: "body-longer"}
+			var got []string
+			err := repo.Referrers(context.Background(), subject, "", func(r []ocispec.Descriptor) error {
+				for _, d := range r {
+					got = append(got, d.Digest.String())
+				}
+				return nil
+			})
+			if g.Applied == "" {
+				continue // that response was not a GET with a body
+			}
+			c.Evals++
+			c.Nontriv(driver.Hash("tagschema-longer", fmt.Sprint(n, at)))
+			detail := fmt.Sprintf("index of %d bytes, MaxMetadataBytes=%d, response %d goes on for 100 KiB after the document: err=%v delivered=%v, largest number of bytes read from one response body: %d", len(b), limit, at, err, got, g.MaxBodyRead())
+			if g.MaxBodyRead() > limit {
+				c.AddViolation(driver.Violation{Tier: c.Tier, Job: c.Job, Scenario: "tagschema", Sig: "referrers (tag schema): more than MaxMetadataBytes of a metadata response was read", Detail: detail})
+				return
+			}
+			if err == nil && len(got) != n {
+				c.AddViolation(driver.Violation{Tier: c.Tier, Job: c.Job, Scenario: "tagschema", Sig: "referrers (tag schema): a truncated or altered result was delivered without error", Detail: detail})
+				return
+			}
+		}
+	}
 	for n := 0; n <= 4; n++ {
 		for _, at := range []string{"", "application/vnd.t.y", "application/vnd.t.none"} {
 			g := NewRegistry("reg.example", Profile{})
